@@ -87,7 +87,7 @@ def specAtom (g : Gen) (key v : Str) (req : Request) : Bool :=
       | none => false
   | .requestPrincipal =>
     match claim req ["iss".toList], claim req ["sub".toList] with
-    | some (.str i), some (.str s) => strForm v (i ++ ['/'] ++ s)
+    | some (.str i), some (.str s) => !i.isEmpty && !s.isEmpty && strForm v (i ++ ['/'] ++ s)
     | _, _ => false
   | .requestAudiences => mvalForm v (claim req ["aud".toList])
   | .requestPresenter => mvalForm v (claim req ["azp".toList])
@@ -141,6 +141,42 @@ def ruleMatches (pns : Str) (r : Rule) (req : Request) : Bool :=
 
 def policyMatches (p : Policy) (req : Request) : Bool := p.rules.any (ruleMatches p.ns · req)
 
+/-! ## Trust domain aliases
+
+The mesh has a local trust domain and aliases (`bundle`, local first); all of them name the same
+identities.  A principal value `<td>/ns/<ns>/sa/<sa>` whose trust domain is one of the bundle (or the
+conventional `cluster.local`, which stands for the local trust domain) denotes that identity in
+every trust domain of the bundle; a `trustDomains` value that is one of the bundle denotes all of
+them.  Anything else is taken literally. -/
+
+def aliasValues (bundle : List Str) (v : Str) : List Str :=
+  match splitOn '/' v with
+  | [td, a, b, c, d] =>
+    if td != star && (bundle.contains td || td == clusterLocal) then
+      bundle.map fun t => join ['/'] [t, a, b, c, d]
+    else [v]
+  | _ => [v]
+
+def aliasTD (bundle : List Str) (v : Str) : List Str := if bundle.contains v then bundle else [v]
+
+def expandSource (b : List Str) (s : Source) : Source :=
+  { s with principals := s.principals.flatMap (aliasValues b),
+           notPrincipals := s.notPrincipals.flatMap (aliasValues b),
+           trustDomains := s.trustDomains.flatMap (aliasTD b),
+           notTrustDomains := s.notTrustDomains.flatMap (aliasTD b) }
+
+def expandCondition (b : List Str) (c : Condition) : Condition :=
+  if c.key = attrSrcPrincipal then
+    { c with values := c.values.flatMap (aliasValues b), notValues := c.notValues.flatMap (aliasValues b) }
+  else if c.key = attrSrcTrustDomain then
+    { c with values := c.values.flatMap (aliasTD b), notValues := c.notValues.flatMap (aliasTD b) }
+  else c
+
+def expandRule (b : List Str) (r : Rule) : Rule :=
+  { r with froms := r.froms.map (expandSource b), whens := r.whens.map (expandCondition b) }
+
+def expandPolicy (b : List Str) (p : Policy) : Policy := { p with rules := p.rules.map (expandRule b) }
+
 /-- A policy applies to a workload iff it lives in the root namespace or in the workload's
     namespace and its selector (if any) is a subset of the workload's labels. -/
 def applies (w : Workload) (p : Policy) : Bool :=
@@ -156,8 +192,9 @@ def decision (ps : List Policy) (req : Request) : Bool :=
   else if (enforced .allow ps).isEmpty then true
   else (enforced .allow ps).any (policyMatches · req)
 
-/-- The decision the policy semantics define for a request to workload `w`. -/
-def specDecision (w : Workload) (ps : List Policy) (req : Request) : Bool :=
-  decision (ps.filter (applies w)) req
+/-- The decision the policy semantics define for a request to workload `w` in a mesh with the
+    trust domain bundle `bundle`. -/
+def specDecision (w : Workload) (bundle : List Str) (ps : List Policy) (req : Request) : Bool :=
+  decision ((ps.filter (applies w)).map (expandPolicy bundle)) req
 
 end IstioModel.C08
